@@ -98,6 +98,11 @@ type Attr struct {
 	HasElse bool        `json:"has_else,omitempty"`
 	Items   []ClassItem `json:"items,omitempty"`
 	Safe    bool        `json:"safe,omitempty"` // href via templ.SafeURL instead of templ.URL
+	// Spelling of the braces of an expression / class attribute: 0 "={ e }", 1 "={e}", 2 the
+	// expression on its own line between the braces, 3 as 2 with a trailing comma; Tight writes binary
+	// operators without spaces (not gofmt's form).
+	Pad   int  `json:"pad,omitempty"`
+	Tight bool `json:"tight,omitempty"`
 }
 
 type ClassItem struct {
